@@ -125,3 +125,107 @@ func weighted(rt *rapid.T, label string, weights ...int) int {
 	}
 	return len(weights) - 1
 }
+
+// ---- memory layout of []byte inputs ------------------------------------------------
+//
+// Every API of this group takes its inputs as byte slices and must neither
+// depend on nor disturb what lies around them.  placeInputs copies the given
+// values into backing arrays according to a layout class and returns the
+// slices to hand to the code under test; check() afterwards verifies that every
+// byte of every backing array (the inputs themselves, the spare capacity behind
+// them, the sentinels before, between and after them) is unchanged.  The
+// reference result must be computed from the original values, not from the
+// placed slices.
+
+var memClasses = []string{"exact-cap", "spare-cap-sentinel", "adjacent-in-order", "adjacent-reversed", "shared-buffer-gaps", "shared-buffer-cap-limited"}
+
+type memLayout struct {
+	class  string
+	bufs   [][]byte
+	snaps  [][]byte
+	placed [][]byte
+}
+
+func memSentinel(n, salt int) []byte {
+	b := make([]byte, n)
+	for i := range b {
+		b[i] = byte(0xa5 ^ (i * 29) ^ salt)
+	}
+	return b
+}
+
+// placeInputs lays out vals according to class (index into memClasses).  A nil
+// value stays nil in the exact-cap class; elsewhere it becomes an empty slice
+// that still points into the buffer (len 0, possibly cap > 0).
+func placeInputs(class int, vals ...[]byte) *memLayout {
+	l := &memLayout{class: memClasses[class%len(memClasses)]}
+	add := func(buf []byte) []byte {
+		l.bufs = append(l.bufs, buf)
+		return buf
+	}
+	switch class % len(memClasses) {
+	case 0:
+		for _, v := range vals {
+			if v == nil {
+				l.placed = append(l.placed, nil)
+				continue
+			}
+			b := add(append(make([]byte, 0, len(v)), v...))
+			l.placed = append(l.placed, b[:len(v):len(v)])
+		}
+	case 1:
+		for i, v := range vals {
+			b := add(append(append(memSentinel(8, i), v...), memSentinel(24, i+7)...))
+			l.placed = append(l.placed, b[8:8+len(v)])
+		}
+	case 2, 3, 4, 5:
+		order := make([]int, len(vals))
+		for i := range order {
+			order[i] = i
+			if class%len(memClasses) == 3 {
+				order[i] = len(vals) - 1 - i
+			}
+		}
+		gap := 0
+		if class%len(memClasses) >= 4 {
+			gap = 5
+		}
+		buf := memSentinel(8, 1)
+		offs := make([]int, len(vals))
+		for _, i := range order {
+			offs[i] = len(buf)
+			buf = append(buf, vals[i]...)
+			buf = append(buf, memSentinel(gap, i+3)...)
+		}
+		buf = append(buf, memSentinel(24, 9)...)
+		buf = add(append(make([]byte, 0, len(buf)), buf...))
+		l.placed = make([][]byte, len(vals))
+		for i, v := range vals {
+			if class%len(memClasses) == 5 {
+				l.placed[i] = buf[offs[i] : offs[i]+len(v) : offs[i]+len(v)]
+			} else {
+				l.placed[i] = buf[offs[i] : offs[i]+len(v)]
+			}
+		}
+	}
+	for _, b := range l.bufs {
+		l.snaps = append(l.snaps, append([]byte{}, b[:cap(b)]...))
+	}
+	return l
+}
+
+// check reports the first byte of any backing array that changed.
+func (l *memLayout) check() error {
+	for i, b := range l.bufs {
+		full := b[:cap(b)]
+		for j := range full {
+			if full[j] != l.snaps[i][j] {
+				return fmt.Errorf("caller memory modified (layout %s): byte %d of backing array %d changed from %#02x to %#02x (array before: %x, after: %x)", l.class, j, i, l.snaps[i][j], full[j], l.snaps[i], full)
+			}
+		}
+	}
+	return nil
+}
+
+// drawMem draws a layout class.
+func drawMem(rt *rapid.T) int { return uniform(rt, "mem.layout", 0, len(memClasses)-1) }
